@@ -85,7 +85,9 @@ func runC04(c *vkit.Ctx, i int, h *History, om onMode) {
 	s.seedPre(h)
 	ok := true
 	s.RunProcess(r, h, vkit.Mode{}, true, nil, func(o Op, res StepResult) bool {
-		if len(res.Problems) > 0 {
+		// premise: the directory was recorded (outcomes as the model gives them); what the
+		// recording looks like on disk is judged by the update run's own comparisons
+		if res.Got != res.Expected {
 			ok = false
 		}
 		return ok
